@@ -1,4 +1,4 @@
-"""C02 -- local schedulers compute exactly the values the graph denotes (DESIGN 5/C02)."""
+"""C02 -- each needed task runs exactly once and only after its dependencies finished (DESIGN 5/C02); shares the exhaustive completion-order sweep of C01."""
 from mc.props import _sweep
 
 ID = "C02"
